@@ -51,11 +51,45 @@ pub fn install_logger() {
     log::set_max_level(log::LevelFilter::Off);
 }
 
+/// The wall-clock seam: `verif_clock_step` is exported by the LD_PRELOADed clock shim (see
+/// /verif/shim/clockshim.c); without the shim the symbol is absent and the seam is inert.
+pub mod wallclock {
+    use std::sync::OnceLock;
+    type SetFn = unsafe extern "C" fn(i64);
+    static F: OnceLock<Option<SetFn>> = OnceLock::new();
+    extern "C" {
+        fn dlsym(handle: *mut core::ffi::c_void, symbol: *const core::ffi::c_char) -> *mut core::ffi::c_void;
+    }
+    /// returns false when the shim is not loaded
+    pub fn set_step_ns(ns: i64) -> bool {
+        let f = F.get_or_init(|| unsafe {
+            // RTLD_DEFAULT
+            let p = dlsym(std::ptr::null_mut(), b"verif_clock_step\0".as_ptr() as *const core::ffi::c_char);
+            if p.is_null() {
+                None
+            } else {
+                Some(std::mem::transmute::<*mut core::ffi::c_void, SetFn>(p))
+            }
+        });
+        match f {
+            Some(f) => {
+                unsafe { f(ns) };
+                true
+            }
+            None => false,
+        }
+    }
+}
+
 /// Every spec of every scenario is generated through here: the scenario's own generator, then the
 /// run's call-site mode (one run in four resolves every call the way generic code does).
 pub fn generate(scn: &dyn Scenario, rng: &mut Prng, tier: Tier) -> Spec {
     let mut spec = scn.generate(rng, tier);
     spec.generic = rng.chance(1, 4);
+    if spec.kind == Some(crate::gens::Kind::Jitter) && matches!(scn.id(), "C05" | "C12" | "C14" | "C16" | "C17") && rng.chance(1, 10) {
+        // real time flies while the code under test runs: 1 ms, 0.3 s, 1.5 s or an hour per clock reading
+        spec.wall_step_ms = *rng.pick(&[1u64, 300, 1_500, 3_600_000]);
+    }
     if matches!(scn.id(), "C17" | "C14") {
         // ambient thread context of Debug formatting (see Spec.ctx)
         spec.ctx = *rng.pick(&[0u8, 0, 0, 0, 0, 0, 1, 1, 2]);
@@ -72,13 +106,21 @@ pub fn execute_guarded(scn: &dyn Scenario, spec: &Spec, st: &mut Stats) -> RunEn
     if spec.logger {
         st.count("fault:trace_logger_enabled");
     }
-    match catch_unwind(AssertUnwindSafe(|| scn.execute(spec, st))) {
+    let flying = spec.wall_step_ms > 0 && wallclock::set_step_ns((spec.wall_step_ms as i64).saturating_mul(1_000_000));
+    if flying {
+        st.count("fault:wall_clock_steps");
+    }
+    let r = match catch_unwind(AssertUnwindSafe(|| scn.execute(spec, st))) {
         Ok(r) => r,
         Err(_) => {
             let m = LAST_PANIC.with(|p| p.borrow().clone());
             RunEnd::Discard(format!("HARNESS_PANIC: {}", m))
         }
+    };
+    if flying {
+        wallclock::set_step_ns(0);
     }
+    r
 }
 
 #[derive(Serialize, Deserialize, Clone, Debug)]
